@@ -6,6 +6,9 @@ import numpy as np
 import openmdao.api as om
 import openmdao.utils.coloring as CM
 
+from checks.C12 import h_colored_subset      # noqa: F401  (harness reused)
+from checks.C14 import h_expr                # noqa: F401  (harness reused)
+
 LEVEL = 'model_checking'
 EXPLANATION = ('For each sparsity pattern the real coloring algorithms (_compute_coloring fwd / rev / auto, MNCO_bidir direct and substitution) '
                'are run on the concrete boolean pattern; then, with one symbolic real per nonzero ("every matrix with that pattern"), the '
@@ -68,6 +71,15 @@ def harnesses(tier, seed):
         for kind in ('fwd', 'rev', 'bidir_direct', 'bidir_subst'):
             for scaling in ((True,) if q else (True, False)):
                 jobs.append(dict(fn='h_problem', params=dict(pattern=named[name], kind=kind, scaled=scaling)))
+    # several components sharing the design variables, responses in blocks: while one color is solved the components that do not
+    # contribute to it are skipped as irrelevant
+    for kind in ('fwd', 'rev', 'auto', 'bidir_direct', 'bidir_subst'):
+        jobs.append(dict(fn='h_problem_multi', params=dict(kind=kind, mode=kind if kind in ('fwd', 'rev') else 'auto', N=4 if kind in ('fwd', 'rev') else 8)))
+    # partial (component level) coloring of approximated partials: colored == uncolored (harnesses shared with C12 / C14)
+    for after in (True, False):
+        jobs.append(dict(fn='h_colored_subset', params=dict(other_declared_after=after)))
+    jobs.append(dict(fn='h_expr', params=dict(expr='a**3 - b**2', names=['a', 'b'], size=2, opts='plain', detect='zeros')))
+    jobs.append(dict(fn='h_expr', params=dict(expr='a**2 + 3.0*a*b', names=['a', 'b'], size=3, opts='coloring')))
     return jobs
 
 
@@ -250,4 +262,110 @@ def h_problem(ctx, pattern, kind, scaled):
             for j in range(n):
                 want[i, j] = A[i, j] * ((-1.0) ** i * 2.0 ** (i % 3)) / (2.0 ** ((j % 3) - 1))
     ctx.eq('uncolored_is_scaled_A', res[False], want)
+    ctx.observe('J', res[False])
+
+
+class _Block(om.ExplicitComponent):
+    """rows [r0, r1) of y = A (x, a): its own output, inputs x (all columns but the last) and the scalar a (last column)"""
+
+    def __init__(self, A, P, xp):
+        super().__init__()
+        self._a = (A, P, xp)
+
+    def setup(self):
+        A, P, xp = self._a
+        m, n = A.shape
+        self.add_input('x', val=xp.ones(n - 1))
+        self.add_input('a', val=xp.ones(1))
+        self.add_output('y', val=xp.ones(m))
+        r, c = np.nonzero(P[:, :-1])
+        if r.size:
+            self.declare_partials('y', 'x', rows=r, cols=c)
+        if P[:, -1].any():
+            self.declare_partials('y', 'a')
+
+    def compute(self, i, o):
+        A = self._a[0]
+        o['y'] = A[:, :-1].dot(i['x']) + A[:, -1] * i['a'][0]
+
+    def compute_partials(self, i, J):
+        A, P, xp = self._a
+        r, c = np.nonzero(P[:, :-1])
+        if r.size:
+            J['y', 'x'] = A[r, c]
+        if P[:, -1].any():
+            J['y', 'a'] = A[:, -1].reshape(-1, 1)
+
+
+def _multi_blocks(N):
+    """three response blocks over the design variables x (N) and a (1): two structurally orthogonal 'halves' rows, two 'parity'
+    rows, and a diagonal block with the dense column of a.  For N >= 8 the bidirectional coloring (2 reverse colors of two rows
+    each + 2 forward colors) beats both one-directional ones."""
+    half = N // 2
+    h = np.zeros((2, N + 1), dtype=int)
+    h[0, :half] = 1
+    h[1, half:N] = 1
+    p = np.zeros((2, N + 1), dtype=int)
+    p[0, 0:N:2] = 1
+    p[1, 1:N:2] = 1
+    d = np.zeros((N, N + 1), dtype=int)
+    d[np.arange(N), np.arange(N)] = 1
+    d[:, N] = 1
+    return [h, p, d]
+
+
+def h_problem_multi(ctx, kind, mode, N=8):
+    """colored == uncolored totals on a model of three components fed by the same design variables (an arrowhead-like total
+    jacobian), relevance enabled as in every default run; setup mode auto / fwd / rev"""
+    if ctx.sym:
+        from symx import stubs
+        import openmdao.utils.general_utils as GU
+        import openmdao.core.system as SY
+        stubs.install_float(GU, SY)
+    blocks = [np.array(b, dtype=bool) for b in _multi_blocks(N)]
+    full = np.vstack(blocks)
+    cols = _colorings(full.astype(int).tolist())
+    if kind not in cols:
+        ctx.check('coloring_exists', False)
+        return
+    col = cols[kind]
+    names = ['h', 'p', 'd']
+    col._row_vars, col._row_var_sizes = ['obj', 'h1', 'p.y', 'd.y'], [1, 1, 2, N]
+    col._col_vars, col._col_var_sizes = ['x', 'a'], [N, 1]
+    As = []
+    for k, Pb in enumerate(blocks):
+        A = ctx.zeros(Pb.shape) if ctx.sym else np.zeros(Pb.shape)
+        for r in range(Pb.shape[0]):
+            for c in range(Pb.shape[1]):
+                if Pb[r, c]:
+                    A[r, c] = ctx.real(f'a{k}_{r}_{c}', -5, 5)
+        As.append(A)
+    x = ctx.reals('x', N, -5, 5)
+    a = ctx.real('a', -5, 5)
+    res = {}
+    for colored in (False, True):
+        p = om.Problem()
+        for nm, A, Pb in zip(names, As, blocks):
+            p.model.add_subsystem(nm, _Block(A, Pb, ctx.np), promotes_inputs=['x', 'a'])
+        p.model.add_design_var('x')
+        p.model.add_design_var('a')
+        p.model.add_objective('h.y', index=0, alias='obj')
+        p.model.add_constraint('h.y', indices=[1], upper=0.0, alias='h1')
+        p.model.add_constraint('p.y', lower=0.0)
+        p.model.add_constraint('d.y', lower=0.0)
+        p.driver = om.ScipyOptimizeDriver()
+        if colored:
+            p.driver.use_fixed_coloring(col)
+        p.setup(mode=mode)
+        p.set_val('x', x)
+        p.set_val('a', a)
+        p.final_setup()
+        p.run_model()
+        res[colored] = np.asarray(p.driver._compute_totals(return_format='array', driver_scaling=False))
+        # a second evaluation reuses the vectors left behind by the first one
+        again = np.asarray(p.driver._compute_totals(return_format='array', driver_scaling=False))
+        ctx.eq(f'second_evaluation_same[{colored}]', again, res[colored])
+    ctx.eq('colored==uncolored', res[True], res[False])
+    want = np.vstack([np.asarray(A) for A in As])
+    ctx.eq('uncolored_is_A', res[False], want)
     ctx.observe('J', res[False])
